@@ -46,6 +46,11 @@ def gen(rng):
     for i in range(n):
         tdir, top, _u = rng.choice(locs)
         nm = 'ent%d' % i
+        if rng.random() < 0.1:
+            # names made of dots, with several dots, beginning with a dot: whatever takes 'the extension' off such a name errs
+            nm = rng.choice(['...', '....', '.ent%d' % i, 'ent%d.tar.gz' % i, 'ent%d.' % i, '..ent%d' % i])
+            if any(s_[1].endswith('/files/' + nm) for s_ in steps):
+                nm = 'ent%d' % i
         kind = rng.choice(['file', 'dir', 'link', 'deep'])
         # original location: same volume as the trash dir, or (for restore) another one
         if cmd == 'trash-restore' and rng.random() < 0.35 and L['vols']:
@@ -139,6 +144,7 @@ def check(sim, case, st):
     bag0 = None
     final = None
     full_exc = None
+    full_gave_up = False
     final_bag_keys = None
     PINS.clear()
     for k, n, before, r, snap in EC.sweep(sim, case, st):
@@ -148,6 +154,7 @@ def check(sim, case, st):
             bag0 = OR.scan(sim, before, env, uid, mounts)
             final = snap
             full_exc = (r.exc_frame, (r.exc or '').split(':')[0]) if r.exc is not None else None
+            full_gave_up = 'cannot remove' in (r.errs or '')
             final_bag_keys = OR.bag_keys(OR.scan(sim, final, env, uid, mounts)) if False else None
             st.probes[cmd.split('-')[1] + '-scenarios'] += 1
             if cmd in ('trash-empty', 'trash-rm'):
@@ -222,8 +229,9 @@ def check(sim, case, st):
             # the purge is complete: same trash content as the uninterrupted run
             ta = dict((p, v) for p, v in after.items() if '/files/' in p or '/info/' in p)
             tf = dict((p, v) for p, v in final.items() if '/files/' in p or '/info/' in p)
-            if full_exc is not None:
-                # the undisturbed run died on the way (how far it got depends on the order in which directories are listed):
+            if full_exc is not None or full_gave_up:
+                # the undisturbed run died on the way, or reported that it could not remove something (a tree nested deeper than
+                # the recursion limit) (how far it got depends on the order in which directories are listed):
                 # there is no 'complete purge' to compare the re-run with; the payload/info invariant above still applies
                 st.probes['no-complete-purge-to-compare-with'] += 1
             elif set(ta) != set(tf):
